@@ -56,6 +56,7 @@ func rulesC07(c *Ctx) {
 	ruleCtxIdentity(c, "C07.CTXIDENTITY")
 	ruleErrHolderShared(c, "C07.CHAINHOLDER")
 	ruleErrorLookedAtOnEveryPath(c, "C07.LOOKEDAT", c.prodFuncs("boltz"))
+	ruleChildBucketError(c, "C07.CHILDERR")
 	ruleHandedHolderConsulted(c, "C07.HANDEDHOLDER")
 	ruleLoopSkip(c, "C07.LOOPSKIP", c.prodFuncs("boltz", "objectz"))
 	ruleRegistrationReachesPhase(c, "C07.VETOREG", "pre")
